@@ -504,7 +504,8 @@ def obligations(tier: str) -> List[dict]:
         sliced(T, 'parse_triples', 6, [(SY, LP, SY, SY), (SY, LP, SY, RP)],
                1800, ['accepted'], tlen=2)
         sliced(T, 'parse_triples', 4, [(SY, LP)], 1500, tlen=3)
-        sliced(T, 'parse_triples', 9, [(SY, LP, SY, RP, SY, LP)], 1800,
+        # r ( a ) ^ r ( b )  - with one-character texts the caret is a token
+        sliced(T, 'parse_triples', 9, [(SY, LP, SY, RP, SY, SY, LP)], 1800,
                ['two-triples'], tlen=1)
         for entry in (0, 1):
             for f0 in range(len(ML_FRAGS)):
